@@ -18,7 +18,6 @@ def apply(c):
         ensures r is Ok ==> wrote(old(out), final(out), self.fixed_enc()), // @C02:question-fixed-part
 """)
     c.wrap(rel, Q_IMPL)
-    c.mark(rel, Q_WF, 'write_compressed_to', '#[verifier::external_body]')
     c.append(rel, """verus!{
 impl<'a> Question<'a> {
     /// RFC 1035 4.1.2: QTYPE(2) QCLASS(2); RFC 6762 18.12: top bit of QCLASS = unicast-response
@@ -42,11 +41,62 @@ impl<'a> Question<'a> {
         &&& v.unicast_response == (be16(data[q + 2], data[q + 3]) & 0x8000 == 0x8000)
     }
     open spec fn wf_cdec(data: Seq<u8>, p: int, v: &Self, p2: int) -> bool { Self::wf_dec(data, p, v, p2) }
-    open spec fn wf_canon(&self) -> bool { true }
+    /// the type / class read back as themselves (e.g. not QTYPE::TYPE(TYPE::Unknown(255)), which is written like ANY)
+    open spec fn wf_canon(&self) -> bool {
+        qtype_of_code(code_of_qtype(self.qtype)) == Ok::<QTYPE, crate::SimpleDnsError>(self.qtype)
+        && qclass_of_code(code_of_qclass(self.qclass)) == Ok::<QCLASS, crate::SimpleDnsError>(self.qclass)
+    }
     open spec fn wf_nocomp() -> bool { false }
-    #[verifier::external_body]
-    proof fn lemma_rt(&self, pre: Seq<u8>) {}
+    proof fn lemma_rt(&self, pre: Seq<u8>) {
+        let d = pre + self.wf_enc();
+        lemma_name_roundtrip(pre, self.qname.lv(), self.fixed_enc());
+        assert(d =~= pre + name_enc(self.qname.lv()) + self.fixed_enc());
+        lemma_run_len(self.qname.lv());
+        lemma_q_fixed(self.qtype, self.qclass, self.unicast_response);
+        let q = pre.len() as int + wl(self.qname.lv()) + 1;
+        assert(d[q] == self.fixed_enc()[0] && d[q + 1] == self.fixed_enc()[1] && d[q + 2] == self.fixed_enc()[2] && d[q + 3] == self.fixed_enc()[3]);
+    }
 """)
+    c.append(rel, """verus!{
+/// the four fixed octets of a question read back as the type, class and unicast bit they were written from
+pub proof fn lemma_q_fixed(qtype: QTYPE, qclass: QCLASS, uni: bool)
+    ensures ({
+        let t = code_of_qtype(qtype);
+        let cw = if uni { code_of_qclass(qclass) | 0x8000 } else { code_of_qclass(qclass) };
+        let f = enc16(t) + enc16(cw);
+        &&& f.len() == 4
+        &&& be16(f[0], f[1]) == t
+        &&& be16(f[2], f[3]) & 0x7FFF == code_of_qclass(qclass)
+        &&& (be16(f[2], f[3]) & 0x8000 == 0x8000) == uni
+    })
+{
+    let t = code_of_qtype(qtype);
+    let c = code_of_qclass(qclass);
+    assert(c <= 255);
+    let cw = if uni { c | 0x8000 } else { c };
+    lemma_be16_enc16(t); lemma_be16_enc16(cw);
+    assert((c | 0x8000u16) & 0x7FFFu16 == c && (c | 0x8000u16) & 0x8000u16 == 0x8000u16 && c & 0x7FFFu16 == c && c & 0x8000u16 == 0) by(bit_vector) requires c <= 255;
+}
+}
+""")
+    c.bind_tail(rel, Q_WF, 'write_compressed_to', """
+        proof {
+            if vx_r is Ok {
+                let m1 = io_buf(out);
+                assert(m1 =~= vx_s1 + self.fixed_enc());
+                lemma_append_stable(vx_s1, self.fixed_enc(), vx_m0.len() as int, 0);
+                lemma_inplace_append_stable(vx_s1, self.fixed_enc(), vx_m0.len() as int, 0);
+                lemma_refs_append(name_refs@, vx_s1, self.fixed_enc());
+                lemma_q_fixed(self.qtype, self.qclass, self.unicast_response);
+                lemma_run_len(self.qname.lv());
+                let q = vx_s1.len() as int;
+                assert(m1[q] == self.fixed_enc()[0] && m1[q + 1] == self.fixed_enc()[1] && m1[q + 2] == self.fixed_enc()[2] && m1[q + 3] == self.fixed_enc()[3]);
+                assert(m1.subrange(0, vx_m0.len() as int) =~= vx_m0);
+            }
+        }
+""")
+    c.ghost(rel, Q_WF, 'write_compressed_to', "self.qname.write_compressed_to(out, name_refs)?;", "        let ghost vx_m0 = io_buf(out);", where='before')
+    c.ghost(rel, Q_WF, 'write_compressed_to', "self.qname.write_compressed_to(out, name_refs)?;", "        let ghost vx_s1 = io_buf(out);", where='after')
     c.wrap(rel, Q_WF)
 
     # ------------------------------------------------------------------ ResourceRecord
@@ -63,7 +113,6 @@ impl<'a> Question<'a> {
         ensures r is Ok ==> wrote(old(out), final(out), self.fixed_enc()), // @C02:record-fixed-part
 """)
     c.wrap(rel, RR_IMPL)
-    c.mark(rel, RR_WF, 'write_compressed_to', '#[verifier::external_body]')
     c.append(rel, """verus!{
 impl<'a> ResourceRecord<'a> {
     /// RFC 1035 4.1.3: TYPE(2) CLASS(2) TTL(4); for OPT (RFC 6891) the CLASS slot carries the UDP payload size;
@@ -99,10 +148,213 @@ impl<'a> ResourceRecord<'a> {
                     && v.cache_flush == (be16(data[q + 2], data[q + 3]) & 0x8000 == 0x8000) })
     }
     open spec fn wf_cdec(data: Seq<u8>, p: int, v: &Self, p2: int) -> bool { Self::wf_dec(data, p, v, p2) }
-    open spec fn wf_canon(&self) -> bool { true }
+    /// the record reads back as itself: canonical RDATA, type code that maps back to the type, an OPT record's class /
+    /// flush bit / TTL version octet agree with what the parser derives, non-empty content for non-empty variants
+    open spec fn wf_canon(&self) -> bool {
+        &&& self.rdata.wf_canon()
+        &&& type_of_code(code_of_type(rdata_type(&self.rdata))) == rdata_type(&self.rdata)
+        &&& (self.rdata is OPT <==> rdata_type(&self.rdata) == TYPE::OPT)
+        &&& (match self.rdata {
+                RData::OPT(opt) => self.class == CLASS::IN && !self.cache_flush && ((self.ttl >> 16u32) & 0xFFu32) == opt.version as u32,
+                RData::Empty(_) => true,
+                _ => self.rdata.wf_enc().len() > 0,
+            })
+    }
     open spec fn wf_nocomp() -> bool { false }
-    #[verifier::external_body]
-    proof fn lemma_rt(&self, pre: Seq<u8>) {}
+    proof fn lemma_rt(&self, pre: Seq<u8>) {
+        let lv = self.name.lv();
+        let rd = self.rdata.wf_enc();
+        let d = pre + self.wf_enc();
+        let q = pre.len() as int + wl(lv) + 1;
+        lemma_run_len(lv);
+        lemma_name_roundtrip(pre, lv, self.fixed_enc() + enc16(rd.len() as u16) + rd);
+        assert(d =~= pre + name_enc(lv) + (self.fixed_enc() + enc16(rd.len() as u16) + rd));
+        assert(d.subrange(q, q + 8) =~= self.fixed_enc()) by { lemma_enc_be_len(self.ttl as nat, 4); }
+        lemma_rr_fixed(self, d, q);
+        lemma_be16_enc16(rd.len() as u16);
+        assert(d[q + 8] == enc16(rd.len() as u16)[0] && d[q + 9] == enc16(rd.len() as u16)[1]);
+        let p2 = d.len() as int;
+        assert(p2 == q + 10 + rd.len());
+        self.rdata.lemma_rt(d.subrange(0, q + 10));
+        assert(d.subrange(0, p2) =~= d);
+        assert(d =~= d.subrange(0, q + 10) + rd);
+    }
+""")
+    c.append(rel, """verus!{
+/// the eight fixed octets TYPE CLASS TTL of a record, found at data[q..q+8], read back as the fields they were written from
+pub proof fn lemma_rr_fixed(rr: &ResourceRecord, data: Seq<u8>, q: int)
+    requires 0 <= q, q + 8 <= data.len(), data.subrange(q, q + 8) == rr.fixed_enc(), rr.wf_canon(),
+    ensures
+        type_of_code(be16(data[q], data[q + 1])) == rdata_type(&rr.rdata),
+        rr.ttl as nat == be_nat(data.subrange(q + 4, q + 8)),
+        data[q + 5] as u32 == (rr.ttl >> 16u32) & 0xFFu32,
+        (match rr.rdata {
+            RData::OPT(opt) => be16(data[q + 2], data[q + 3]) == opt.udp_packet_size,
+            _ => class_of_code(be16(data[q + 2], data[q + 3]) & 0x7FFF) == Ok::<CLASS, crate::SimpleDnsError>(rr.class)
+                 && rr.cache_flush == (be16(data[q + 2], data[q + 3]) & 0x8000 == 0x8000),
+        }),
+{
+    let f = rr.fixed_enc();
+    let sub = data.subrange(q, q + 8);
+    let t = code_of_type(rdata_type(&rr.rdata));
+    lemma_be16_enc16(t);
+    lemma_pow256_vals();
+    lemma_enc_be_len(rr.ttl as nat, 4);
+    let mid = match rr.rdata {
+        RData::OPT(opt) => enc16(opt.udp_packet_size),
+        _ => enc16(if rr.cache_flush { code_of_class(rr.class) | 0x8000 } else { code_of_class(rr.class) }),
+    };
+    assert(mid.len() == 2 && enc16(t).len() == 2);
+    assert(f =~= enc16(t) + mid + enc_be(rr.ttl as nat, 4));
+    assert(f.len() == 8);
+    assert(f.subrange(4, 8) =~= enc_be(rr.ttl as nat, 4));
+    assert(f[2] == mid[0] && f[3] == mid[1]);
+    assert forall|i: int| 0 <= i < 8 implies data[q + i] == f[i] by { assert(sub[i] == f[i]); }
+    assert(f[0] == enc16(t)[0] && f[1] == enc16(t)[1]);
+    assert(data.subrange(q + 4, q + 8) =~= f.subrange(4, 8));
+    lemma_be_enc(rr.ttl as nat, 4);
+    lemma_u32_octets(rr.ttl, data.subrange(q + 4, q + 8));
+    assert(data.subrange(q + 4, q + 8)[1] == data[q + 5]);
+    match rr.rdata {
+        RData::OPT(opt) => {
+            lemma_be16_enc16(opt.udp_packet_size);
+            assert(mid == enc16(opt.udp_packet_size));
+        }
+        _ => {
+            let c = code_of_class(rr.class);
+            assert(c <= 254);
+            let cw = if rr.cache_flush { c | 0x8000 } else { c };
+            lemma_be16_enc16(cw);
+            assert(mid == enc16(cw));
+            assert((c | 0x8000u16) & 0x7FFFu16 == c && (c | 0x8000u16) & 0x8000u16 == 0x8000u16 && c & 0x7FFFu16 == c && c & 0x8000u16 == 0) by(bit_vector) requires c <= 254;
+        }
+    }
+}
+
+/// ASSUMED, NOT PROVED (DESIGN.md section 4, C03 "footprint argument"): the two RDLENGTH octets of the record being written
+/// are written by the record writer itself and belong to no name, so no recorded suffix, nor the owner name, nor a name
+/// inside the RDATA is decoded through them; overwriting them (the seek-back patch) therefore preserves every decoding fact
+/// established before the patch.  This holds for every table produced by compress_append, but it is not a consequence of
+/// refs_ok alone; turning it into a theorem needs a footprint invariant on the table.
+#[verifier::external_body]
+pub proof fn axiom_rdlength_patch_frame<'a>(map: Map<&'a [Label<'a>], usize>, s4: Seq<u8>, s5: Seq<u8>, a: int, m0len: int, rr: &ResourceRecord<'a>)
+    requires
+        s4.len() == s5.len(), 0 <= m0len <= a, a + 2 <= s4.len(), s4[a] == 0 && s4[a + 1] == 0,
+        forall|i: int| 0 <= i < s4.len() && !(a <= i < a + 2) ==> s5[i] == s4[i],
+        refs_ok(map, s4), dec_labels(s4, m0len, 0) == Some(rr.name.lv()),
+        a == m0len + inplace_len(s4, m0len) + 8,
+        RData::wf_cdec(s4, a + 2, &rr.rdata, s4.len() as int),
+    ensures
+        refs_ok(map, s5), dec_labels(s5, m0len, 0) == Some(rr.name.lv()), inplace_len(s5, m0len) == inplace_len(s4, m0len),
+        RData::wf_cdec(s5, a + 2, &rr.rdata, s5.len() as int),
+{}
+}
+""")
+    c.contract(rel, RR_WF, 'write_compressed_to', "", pre_body="""
+        let ghost vx_m0 = io_buf(out);
+""")
+    c.ghost(rel, RR_WF, 'write_compressed_to', "self.name.write_compressed_to(out, name_refs)?;", "        let ghost vx_s1 = io_buf(out);", where='after')
+    c.ghost(rel, RR_WF, 'write_compressed_to', "self.write_common(out)?;", """
+        let ghost vx_s2 = io_buf(out);
+        proof { assert(vx_s2 =~= vx_s1 + self.fixed_enc()); lemma_enc_be_len(self.ttl as nat, 4); }
+""", where='after')
+    c.ghost(rel, RR_WF, 'write_compressed_to', "out.write_all(&[0, 0])?;", """
+        let ghost vx_s3 = io_buf(out);
+        proof {
+            assert(vx_s3 =~= vx_s2 + seq![0u8, 0u8]);
+            assert(vx_s3 =~= vx_s1 + (self.fixed_enc() + seq![0u8, 0u8]));
+            lemma_refs_append(name_refs@, vx_s1, self.fixed_enc() + seq![0u8, 0u8]);
+        }
+""", where='after')
+    c.ghost(rel, RR_WF, 'write_compressed_to', "self.rdata.write_compressed_to(out, name_refs)?;", """
+        let ghost vx_s4 = io_buf(out);
+""", where='after')
+    c.ghost(rel, RR_WF, 'write_compressed_to', "out.seek(std::io::SeekFrom::End(0))?;", """
+        proof {
+            let lval = (vx_s4.len() - vx_s2.len() - 2) as u16;
+            assert(io_buf(out) == overwrite(vx_s4, vx_s2.len() as int, enc16(lval)));
+            lemma_rr_compressed(self, name_refs@, vx_m0, vx_s1, vx_s2, vx_s3, vx_s4, io_buf(out));
+        }
+""", where='after')
+    c.append(rel, """verus!{
+/// the record-level composition for the compressing writer: owner name (s1), fixed part (s2), zeroed RDLENGTH (s3),
+/// RDATA (s4), RDLENGTH patched by seeking back (s5)
+pub proof fn lemma_rr_compressed<'a>(rr: &ResourceRecord<'a>, map: Map<&'a [Label<'a>], usize>, m0: Seq<u8>, s1: Seq<u8>, s2: Seq<u8>,
+                                     s3: Seq<u8>, s4: Seq<u8>, s5: Seq<u8>)
+    requires
+        rr.wf_ok(), rr.wf_canon(),
+        s1.len() >= m0.len(), s1.subrange(0, m0.len() as int) =~= m0,
+        dec_labels(s1, m0.len() as int, 0) == Some(rr.name.lv()), s1.len() == m0.len() + inplace_len(s1, m0.len() as int),
+        s1.len() - m0.len() <= wl(rr.name.lv()) + 1,
+        s2 == s1 + rr.fixed_enc(), s3 == s2 + seq![0u8, 0u8],
+        s4.len() >= s3.len(), s4.subrange(0, s3.len() as int) =~= s3, refs_ok(map, s4),
+        RData::wf_cdec(s4, s3.len() as int, &rr.rdata, s4.len() as int),
+        s4.len() - s3.len() <= rr.rdata.wf_enc().len(), rr.rdata.wf_enc().len() > 0 ==> s4.len() > s3.len(),
+        s5 == overwrite(s4, s2.len() as int, enc16((s4.len() - s2.len() - 2) as u16)),
+    ensures
+        s5.len() == s4.len(), s5.subrange(0, m0.len() as int) =~= m0, refs_ok(map, s5),
+        ResourceRecord::wf_dec(s5, m0.len() as int, rr, s5.len() as int),   // transparency at record level
+        s5.len() - m0.len() <= rr.wf_enc().len(),
+        be16(s5[s2.len() as int], s5[s2.len() as int + 1]) == s5.len() - s2.len() - 2,   // RDLENGTH == number of RDATA bytes that follow
+{
+    let a = s2.len() as int;
+    let q = s1.len() as int;
+    let lval = (s4.len() - a - 2) as u16;
+    lemma_enc_be_len(rr.ttl as nat, 4);
+    lemma_run_len(rr.name.lv());
+    assert(rr.fixed_enc().len() == 8);
+    assert(a == q + 8);
+    assert(s4.len() - a - 2 <= 65535);
+    lemma_be16_enc16(lval);
+    assert(s4[a] == s3[a] && s4[a + 1] == s3[a + 1]) by { assert(s4.subrange(0, s3.len() as int)[a] == s3[a]); assert(s4.subrange(0, s3.len() as int)[a + 1] == s3[a + 1]); }
+    assert(s5.len() == s4.len());
+    assert forall|i: int| 0 <= i < s4.len() && !(a <= i < a + 2) implies s5[i] == s4[i] by {}
+    assert(s5[a] == enc16(lval)[0] && s5[a + 1] == enc16(lval)[1]);
+    let x4 = s4.subrange(q, s4.len() as int);
+    assert(s4 =~= s1 + x4) by {
+        assert forall|i: int| 0 <= i < q implies s4[i] == s1[i] by { assert(s4.subrange(0, s3.len() as int)[i] == s3[i]); }
+    }
+    lemma_append_stable(s1, x4, m0.len() as int, 0);
+    lemma_inplace_append_stable(s1, x4, m0.len() as int, 0);
+    axiom_rdlength_patch_frame(map, s4, s5, a, m0.len() as int, rr);
+    assert(s5.subrange(q, q + 8) =~= rr.fixed_enc()) by {
+        assert forall|i: int| 0 <= i < 8 implies s5[q + i] == rr.fixed_enc()[i] by {
+            assert(s4.subrange(0, s3.len() as int)[q + i] == s3[q + i]);
+        }
+    }
+    lemma_rr_fixed(rr, s5, q);
+    assert(s5.subrange(0, s5.len() as int) =~= s5);
+    assert(s5.subrange(0, m0.len() as int) =~= m0) by {
+        assert forall|i: int| 0 <= i < m0.len() implies s5[i] == m0[i] by {
+            assert(s4.subrange(0, s3.len() as int)[i] == s3[i]);
+            assert(s1.subrange(0, m0.len() as int)[i] == m0[i]);
+        }
+    }
+    let p2 = s5.len() as int;
+    assert(p2 == q + 10 + be16(s5[q + 8], s5[q + 9]));
+    // RData::wf_dec at the record header
+    let ty = type_of_code(be16(s5[q], s5[q + 1]));
+    assert(ty == rdata_type(&rr.rdata));
+    match rr.rdata {
+        RData::OPT(opt) => {
+            assert(OPT::wf_dec(s5, q, &opt, p2));
+        }
+        RData::Empty(t) => { }
+        _ => {
+            assert(s4.len() > s3.len());
+            assert(rdata_dec(s5, q + 10, ty, &rr.rdata, p2));
+        }
+    }
+    assert(RData::wf_dec(s5, q, &rr.rdata, p2));
+    lemma_enc16_len_le(rr);
+}
+pub proof fn lemma_enc16_len_le(rr: &ResourceRecord)
+    ensures rr.wf_enc().len() == wl(rr.name.lv()) + 1 + 8 + 2 + rr.rdata.wf_enc().len()
+{
+    lemma_enc_be_len(rr.ttl as nat, 4);
+    lemma_run_len(rr.name.lv());
+}
+}
 """)
     c.contract(rel, RR_WF, 'parse', "", pre_body="""
         proof { assert(!0x8000u16 == 0x7FFFu16) by(bit_vector); }
